@@ -283,6 +283,9 @@ func NewFromYaml(data []byte) (*Config, error) {
 
 	if c.ProfileAddress == "" && yc.ProfilePort > 0 {
 		c.ProfileAddress = net.JoinHostPort(yc.ProfileHost, strconv.Itoa(yc.ProfilePort))
+	} else if c.ProfileAddress == disabledGRPCListener {
+		// "none" disables profiling explicitly, like the command line flag.
+		c.ProfileAddress = ""
 	}
 
 	if c.MetricsDurationBuckets != nil {
